@@ -27,6 +27,7 @@ structure Table where
   writerStructWrites : List (String × String)
   poolPuts : List (String × String × String)
   pkgObjects : List (String × String × String) := []
+  readerFieldWrites : List (String × String) := []
 
 /-- makers of package-level objects whose results are immutable after package initialisation (error values, version
     descriptors, tables and slices no function assigns to — assignments are `pkgVarWrites`) or documented as safe for
@@ -61,7 +62,10 @@ def RaceFree (t : Table) : Bool :=
   t.generatorFieldWrites.isEmpty &&
   t.writerStructWrites.isEmpty &&
   t.poolPuts.all (fun p => p.2.2 == "niled") &&
-  t.pkgObjects.all (fun o => allowedMakers.contains o.2.2)
+  t.pkgObjects.all (fun o => allowedMakers.contains o.2.2) &&
+  -- a file reader keeps nothing between calls: the only field its methods assign is the pooled input buffer, in Close.
+  -- In particular Next does not keep the record it returns (which belongs to whoever received it)
+  t.readerFieldWrites.all (fun w => w == ("bufferedReader", "Close"))
 
 /-- a call path inside the type: consecutive methods are caller/callee, and no method after the first takes the lock -/
 def UnlockedPath (t : Table) : List String → Prop
